@@ -431,3 +431,252 @@ def field_writes(P, adt_pred):
                     else:
                         break
     return out
+
+
+# ---- flow-insensitive tag propagation over MIR locals (dimension / provenance rules) -------------------------------
+CMP_OPS = ("Lt", "Le", "Gt", "Ge", "Eq", "Ne")
+CMP_CALLS = ("std::cmp::Ord::cmp", "std::cmp::PartialOrd::partial_cmp", "std::cmp::PartialOrd::lt", "std::cmp::PartialOrd::le",
+             "std::cmp::PartialOrd::gt", "std::cmp::PartialOrd::ge", "std::cmp::PartialEq::eq", "std::cmp::PartialEq::ne")
+
+
+def _places_of(x, out):
+    if isinstance(x, dict):
+        if "l" in x and "p" in x and isinstance(x["p"], list):
+            out.append(x)
+        for v in x.values():
+            _places_of(v, out)
+    elif isinstance(x, list):
+        for v in x:
+            _places_of(v, out)
+
+
+def place_field_steps(P, m, pl):
+    """[(type string of the value a field is taken of, field index)] along a place's projection"""
+    ty = m["locals"][pl["l"]]
+    out = []
+    for e in pl["p"]:
+        t = P.tys[ty]
+        if e == "*":
+            ty = t.get("inner", ty)
+        elif isinstance(e, list) and e[0] == "f":
+            out.append((t["s"], e[1]))
+            ty = e[2]
+        elif isinstance(e, list) and e[0] == "d":
+            pass
+        else:
+            ty = t.get("elem", t.get("inner", ty))
+    return out
+
+
+def tag_locals(P, fn, field_tag, arg_tag=None, call_tag=None):
+    """Least fixpoint of: a local carries the tags of everything it is computed from. `field_tag(type string, field index)` and
+    `arg_tag(argument index)` name the sources; `call_tag(call terminator)` may return ("add", tags) (result also carries these) or
+    ("set", tags) (result carries exactly these, whatever the arguments carry). Returns (tags per local, tags_of(operand-or-rvalue))."""
+    m = P.fn(fn)["mir"]
+    tags = {i: set() for i in range(len(m["locals"]))}
+    if arg_tag:
+        for i in range(1, m["argc"] + 1):
+            t = arg_tag(i)
+            if t:
+                tags[i].add(t)
+
+    def of(x):
+        pls = []
+        _places_of(x, pls)
+        out = set()
+        for pl in pls:
+            out |= tags[pl["l"]]
+            for tys, idx in place_field_steps(P, m, pl):
+                t = field_tag(tys, idx)
+                if t:
+                    out.add(t)
+        return out
+    changed = True
+    while changed:
+        changed = False
+        for b in m["blocks"]:
+            if b.get("cleanup"):
+                continue
+            for st in b["s"]:
+                if st["k"] == "assign":
+                    new = of(st["rv"])
+                    l = st["pl"]["l"]
+                    if not new <= tags[l]:
+                        tags[l] |= new
+                        changed = True
+            t = b["t"]
+            if t["k"] == "call" and t.get("dest"):
+                new = of(t["args"])
+                ct = call_tag(t) if call_tag else None
+                if ct:
+                    new = set(ct[1]) if ct[0] == "set" else new | set(ct[1])
+                l = t["dest"]["l"]
+                if not new <= tags[l]:
+                    tags[l] |= new
+                    changed = True
+    return tags, of
+
+
+def comparisons(P, fn):
+    """[(line, left operand, right operand)] of every comparison in fn: MIR comparison operators and calls of the std comparison traits"""
+    m = P.fn(fn)["mir"]
+    out = []
+    for b in m["blocks"]:
+        if b.get("cleanup"):
+            continue
+        for st in b["s"]:
+            if st["k"] == "assign" and st["rv"]["k"] == "bin" and st["rv"]["op"] in CMP_OPS:
+                out.append((st.get("ln"), st["rv"]["l"], st["rv"]["r"]))
+        t = b["t"]
+        if t["k"] == "call" and t["callee"].get("def") in CMP_CALLS and len(t["args"]) == 2:
+            out.append((t.get("ln"), t["args"][0], t["args"][1]))
+    return out
+
+
+# ---- counted loops with a universal check ("for every i < len: check(v[i])") ------------------------------------------
+def _copies(mir):
+    """local -> local it is a plain copy/move of (single-assignment temporaries only)"""
+    ndefs = {}
+    src = {}
+    for b in mir["blocks"]:
+        if b.get("cleanup"):
+            continue
+        for st in b["s"]:
+            if st["k"] == "assign" and not st["pl"]["p"]:
+                l = st["pl"]["l"]
+                ndefs[l] = ndefs.get(l, 0) + 1
+                rv = st["rv"]
+                if rv["k"] == "use" and rv["x"]["k"] in ("copy", "move") and not rv["x"]["pl"]["p"]:
+                    src[l] = rv["x"]["pl"]["l"]
+        t = b["t"]
+        if t["k"] == "call" and t.get("dest") and not t["dest"]["p"]:
+            ndefs[t["dest"]["l"]] = ndefs.get(t["dest"]["l"], 0) + 1
+    return {l: s for l, s in src.items() if ndefs.get(l) == 1}
+
+
+def _root(copies, l):
+    n = 0
+    while l in copies and n < 10:
+        l = copies[l]
+        n += 1
+    return l
+
+
+def _def_of(mir, l):
+    """the single defining statement / call terminator of a temporary (None when it has several)"""
+    found = []
+    for bi, b in enumerate(mir["blocks"]):
+        if b.get("cleanup"):
+            continue
+        for st in b["s"]:
+            if st["k"] == "assign" and not st["pl"]["p"] and st["pl"]["l"] == l:
+                found.append((bi, st))
+        t = b["t"]
+        if t["k"] == "call" and t.get("dest") and not t["dest"]["p"] and t["dest"]["l"] == l:
+            found.append((bi, t))
+    return found[0] if len(found) == 1 else None
+
+
+def counted_loops(P, fn):
+    """Recognise `c = 0; while c < len(S) { ...; c += 1 }` in MIR. Returns a list of dicts:
+    counter, head (block of the guard switch), exit (guard-false target), body (set of blocks), incr (block holding c += 1), slice (the place
+    S as (local, field-index tuple) whose length bounds the loop), ok (bool: start 0, step 1, the guard is the only way into the continuation)"""
+    mir = P.fn(fn)["mir"]
+    cfg = P.cfg(fn)
+    copies = _copies(mir)
+    out = []
+    for (src, head) in cfg.back_edges():
+        # natural loop
+        body = {head, src}
+        st = [src]
+        while st:
+            x = st.pop()
+            for p in cfg.pred[x]:
+                if p not in body and x != head:
+                    body.add(p)
+                    st.append(p)
+        # guard: a switch in the loop on Lt(c', n) with one target outside the body
+        for g in sorted(body):
+            t = mir["blocks"][g]["t"]
+            if t["k"] != "switch":
+                continue
+            outside = [x for x in succs_of(t) if x not in body]
+            if len(outside) != 1:
+                continue
+            d = t.get("discr") or t.get("x")
+            if not d or d["k"] not in ("copy", "move") or d["pl"]["p"]:
+                continue
+            df = _def_of(mir, d["pl"]["l"])
+            if not df or df[1].get("k") != "assign" or df[1]["rv"]["k"] != "bin" or df[1]["rv"]["op"] != "Lt":
+                continue
+            lo, hi = df[1]["rv"]["l"], df[1]["rv"]["r"]
+            if lo["k"] not in ("copy", "move") or hi["k"] not in ("copy", "move"):
+                continue
+            c = _root(copies, lo["pl"]["l"])
+            # the bound: len(&(*self).K) or PtrMetadata of it
+            hd = _def_of(mir, _root(copies, hi["pl"]["l"]))
+            slc = None
+            if hd and hd[1].get("k") == "call" and (hd[1]["callee"].get("resolved") or "").endswith("<impl [T]>::len"):
+                a = hd[1]["args"][0]
+                if a["k"] in ("copy", "move"):
+                    slc = _slice_origin(mir, copies, a["pl"])
+            elif hd and hd[1].get("k") == "assign" and hd[1]["rv"]["k"] == "un" and hd[1]["rv"]["op"] == "PtrMetadata":
+                a = hd[1]["rv"]["x"]
+                if a["k"] in ("copy", "move"):
+                    slc = _slice_origin(mir, copies, a["pl"])
+            # assignments of the counter
+            ok = True
+            incr = None
+            for bi, b in enumerate(mir["blocks"]):
+                if b.get("cleanup"):
+                    continue
+                for s_ in b["s"]:
+                    if s_["k"] == "assign" and not s_["pl"]["p"] and s_["pl"]["l"] == c:
+                        rv = s_["rv"]
+                        if bi not in body:
+                            if not (rv["k"] == "use" and rv["x"]["k"] == "const" and rv["x"].get("v") == 0):
+                                ok = False
+                        else:
+                            # c = move t.0 with t = AddWithOverflow(c, 1)
+                            good = False
+                            if rv["k"] == "use" and rv["x"]["k"] in ("copy", "move") and rv["x"]["pl"]["p"] and rv["x"]["pl"]["p"][0][0] == "f" and rv["x"]["pl"]["p"][0][1] == 0:
+                                td = _def_of(mir, rv["x"]["pl"]["l"])
+                                if td and td[1].get("k") == "assign" and td[1]["rv"]["k"] == "bin" and td[1]["rv"]["op"] in ("AddWithOverflow", "Add"):
+                                    l_, r_ = td[1]["rv"]["l"], td[1]["rv"]["r"]
+                                    if l_["k"] in ("copy", "move") and _root(copies, l_["pl"]["l"]) == c and r_["k"] == "const" and r_.get("v") == 1:
+                                        good = True
+                            if good and incr is None:
+                                incr = bi
+                            else:
+                                ok = False
+            # the guard must be the only edge from the body into the continuation that does not end in an early return:
+            exits = [(x, y) for x in body for y in cfg.succ[x] if y not in body and x != g]
+            out.append({"counter": c, "head": g, "exit": outside[0], "body": body, "incr": incr, "slice": slc, "ok": ok and incr is not None and slc is not None,
+                        "other_exits": exits})
+    return out
+
+
+def succs_of(t):
+    from core import succs
+    return succs(t)
+
+
+def _slice_origin(mir, copies, pl, depth=0):
+    """follow `&(*x)` / copies back to `(*self).K`: returns (root local, (field indices...))"""
+    if depth > 6:
+        return None
+    fields = tuple(e[1] for e in pl["p"] if isinstance(e, list) and e[0] == "f")
+    l = pl["l"]
+    if fields:
+        return (_root(copies, l), fields)
+    d = _def_of(mir, l)
+    if not d or d[1].get("k") != "assign":
+        return None
+    rv = d[1]["rv"]
+    if rv["k"] == "ref":
+        return _slice_origin(mir, copies, rv["pl"], depth + 1)
+    if rv["k"] == "use" and rv["x"]["k"] in ("copy", "move"):
+        return _slice_origin(mir, copies, rv["x"]["pl"], depth + 1)
+    if rv["k"] == "cast" and rv["x"]["k"] in ("copy", "move"):
+        return _slice_origin(mir, copies, rv["x"]["pl"], depth + 1)
+    return None
